@@ -73,6 +73,8 @@ SCALARS = ("power", "powerGenerated", "kgHM")
 LISTS = ("adjMgFlux",)           # stays a python list
 ARRAYS = ("mgFlux",)             # the parameter setter turns it into a numpy array
 NG = 2
+# multigroup flux parameter -> the block-average scalar flux derived from it
+FLUX_SCALAR = {"mgFlux": "flux", "adjMgFlux": "fluxAdj", "mgFluxGamma": "fluxGamma"}
 VOLKEYS = ("volume", "volume (core)")
 
 
@@ -387,6 +389,89 @@ def third_to_full_multiplies_by_three_and_restores(ctx, layout, nblocks, sfp):
     tot2 = totals(core)
     for key, old in tot0.items():
         ctx.check_close("restored %s = original" % key, tot2[key], old, scale=old + 1e-30)
+
+
+# ---------------------------------------------------------------------------------------------------------------
+# sources that were turned before the conversion (direction-carrying block parameters)
+
+_S3H = 0.8660254037844386       # sin(120 degrees)
+_ROT = {1: (-0.5, _S3H), 2: (-0.5, -_S3H)}      # (cos, sin) of m x 120 degrees
+
+
+@harness("C13", bounds="third-core mini reactor, centre + 1..3 source assemblies, 1 block each; every source off the "
+                       "centre was turned by n x 60 degrees in an earlier shuffle (n forked over 0..5: one choice "
+                       "shared by the sources, staggered, or one independent choice per source = instance) and carries "
+                       "a symbolic bowing displacement (dx, dy) in [-5,5]^2 and 6 symbolic corner values [0,1e9]; "
+                       "other block parameters as above", stubs=STUBS, qtimeout_ms=20000,
+         instances={"quick": [dict(layout="c+1", independent=True), dict(layout="c+3", independent=False)],
+                    "thorough": [dict(layout="holes", independent=True), dict(layout="nocentre", independent=True)]})
+def copies_of_sources_turned_earlier_are_rotated_by_the_increment(ctx, layout, independent):
+    """'each new assembly a copy of its source rotated into place': the copy at the m x 120-degree image is the
+    source turned by m x 120 degrees - relative to the source AS IT IS, whatever orientation the source had already
+    accumulated.  Direction-carrying block parameters (bowing displacement vector, per-corner values) of the copy
+    are the source's turned by exactly that increment; the source is left alone; the undo brings everything back."""
+    import math
+    cells, nblocks = LAYOUTS[layout], 1
+    r, core, asms, S = build(ctx, cells, nblocks)
+    shared = None if independent else ctx.choice("turnedBefore", list(range(6)))
+    D = {}
+    for ai, c in enumerate(cells):
+        if c == (0, 0):
+            continue
+        n = ctx.choice("turnedBefore_%d" % ai, list(range(6))) if independent else (shared + ai) % 6
+        asms[ai].rotate(n * math.pi / 3.0)          # the earlier shuffle
+        b = asms[ai][0]
+        ctx.check("set-up: source %d has accumulated %d degrees" % (ai, 60 * n), b.p.orientation[2] % 360 == 60 * n)
+        dx, dy = ctx.real("dx_%d" % ai, -5.0, 5.0), ctx.real("dy_%d" % ai, -5.0, 5.0)
+        corners = [ctx.real("corner_%d_%d" % (ai, k), 0.0, 1e9) for k in range(6)]
+        b.p.displacementX, b.p.displacementY = dx, dy
+        b.p.cornerFastFlux = list(corners)
+        D[ai] = dict(n=n, o=b.p.orientation[2], dx=dx, dy=dy, corners=corners)
+    before = snapshot(core)
+
+    changer = gc.ThirdCoreHexToFullCoreChanger(Settings())
+    changer.convert(r)
+
+    for ai, d in D.items():
+        i, j = cells[ai]
+        sb = asms[ai][0]
+        mag = abs(d["dx"]) + abs(d["dy"]) + 1e-6
+        ctx.check_close("source %d keeps its displacement (x)" % ai, sb.p.displacementX, d["dx"], scale=mag)
+        ctx.check_close("source %d keeps its displacement (y)" % ai, sb.p.displacementY, d["dy"], scale=mag)
+        ctx.check("source %d keeps its orientation" % ai, sb.p.orientation[2] == d["o"])
+        for k in range(6):
+            ctx.check_close("source %d keeps its corner values" % ai, sb.p.cornerFastFlux[k], d["corners"][k],
+                            scale=d["corners"][k] + 1e-30)
+        for m in (1, 2):
+            cp = core.childrenByLocator.get(core.spatialGrid[U.rot120(i, j, m) + (0,)])
+            ctx.check("the %d-degree image of source %d is filled" % (120 * m, ai), cp is not None)
+            if cp is None:
+                continue
+            cb = cp[0]
+            ctx.check("copy of source %d (turned %d before): orientation = source's + %d degrees" %
+                      (ai, 60 * d["n"], 120 * m), (cb.p.orientation[2] - d["o"]) % 360 == 120 * m)
+            c, sn = _ROT[m]
+            wantX, wantY = d["dx"] * c - d["dy"] * sn, d["dx"] * sn + d["dy"] * c
+            if ctx.canary and m == 2:
+                wantX = wantX + ITE(AND(d["dx"] > 4.9, d["dy"] > 4.9), 0.05, 0.0)
+            ctx.check_close("copy of source %d (turned %d before): displacement x = source's vector turned by %d "
+                            "degrees" % (ai, 60 * d["n"], 120 * m), cb.p.displacementX, wantX, scale=mag)
+            ctx.check_close("copy of source %d (turned %d before): displacement y = source's vector turned by %d "
+                            "degrees" % (ai, 60 * d["n"], 120 * m), cb.p.displacementY, wantY, scale=mag)
+            for k in range(6):
+                # counter-clockwise turn by 2m corners: the value of corner k arrives at corner k + 2m
+                w = d["corners"][(k - 2 * m) % 6]
+                ctx.check_close("copy of source %d (turned %d before): corner %d holds the source's corner %d" %
+                                (ai, 60 * d["n"], k, (k - 2 * m) % 6), cb.p.cornerFastFlux[k], w, scale=w + 1e-30)
+
+    changer.restorePreviousGeometry(r)
+    check_same_state(ctx, core, before, "restored")
+    for ai, d in D.items():
+        sb = asms[ai][0]
+        mag = abs(d["dx"]) + abs(d["dy"]) + 1e-6
+        ctx.check_close("restored: source %d displacement (x) as before" % ai, sb.p.displacementX, d["dx"], scale=mag)
+        ctx.check_close("restored: source %d displacement (y) as before" % ai, sb.p.displacementY, d["dy"], scale=mag)
+        ctx.check("restored: source %d orientation as before" % ai, sb.p.orientation[2] == d["o"])
 
 
 # ---------------------------------------------------------------------------------------------------------------
@@ -727,10 +812,17 @@ def edge_scale_then_remove_combines_two_halves(ctx, layout, subset):
             b = byCell[cell][0]
             v = dict(power=ctx.real("hp_%s%d" % (side, n), 1e-3, 1e9),
                      adjMgFlux=[ctx.real("hadj_%s%d_g%d" % (side, n, g), 1e-3, 1e9) for g in range(NG)],
-                     mgFlux=[ctx.real("hmg_%s%d_g%d" % (side, n, g), 1e-3, 1e9) for g in range(NG)])
+                     mgFlux=[ctx.real("hmg_%s%d_g%d" % (side, n, g), 1e-3, 1e9) for g in range(NG)],
+                     mgFluxGamma=[ctx.real("hgam_%s%d_g%d" % (side, n, g), 1e-3, 1e9) for g in range(NG)])
             b.p.power = v["power"]
             b.p.adjMgFlux = list(v["adjMgFlux"])
             b.p.mgFlux = list(v["mgFlux"])
+            # a coupled neutron / gamma solution: the gamma group fluxes and the three block-average scalar fluxes
+            # (neutron, adjoint, gamma) of the half assembly, every one with a value of its own
+            b.p.mgFluxGamma = list(v["mgFluxGamma"])
+            for sc in FLUX_SCALAR.values():
+                v[sc] = ctx.real("h%s_%s%d" % (sc, side, n), 1e-3, 1e9)
+                b.p[sc] = v[sc]
             half[(n, side)] = v
     untouched = {c: (byCell[c][0].p.power, byCell[c][0].p.kgHM) for c in cells if c not in [p[0] for p in pairs]}
     volHalves = {n: byCell[lo][0].getVolume() + byCell[up][0].getVolume() for n, (lo, up) in enumerate(pairs)}
@@ -753,15 +845,19 @@ def edge_scale_then_remove_combines_two_halves(ctx, layout, subset):
             want = want + u["power"] * ITE(l["power"] > 5e8, 0.01, 0.0)
         ctx.check_close("whole assembly power = sum of its two halves", b.p.power, want, scale=want)
         ctx.check("the assembly on the line is whole again", b.getSymmetryFactor() == 1.0)
-        for pn in ("adjMgFlux", "mgFlux"):
+        for pn in ("adjMgFlux", "mgFlux", "mgFluxGamma"):
             for g in range(NG):
                 want = l[pn][g] + u[pn][g] if sel(pn) else l[pn][g]
                 ctx.check_close("whole assembly %s[%d] = sum of its two halves" % (pn, g), b.p[pn][g], want,
                                 scale=want)
-        if sel("mgFlux"):
-            want = sum(l["mgFlux"][g] + u["mgFlux"][g] for g in range(NG))
-            ctx.check_close("scalar flux x (volume of both halves) = total of the combined group fluxes",
-                            b.p.flux * volHalves[n], want, scale=want)
+        # every block-average scalar flux is re-derived from ITS OWN group fluxes (and only when those were merged)
+        for pn, sc in FLUX_SCALAR.items():
+            if sel(pn):
+                want = sum(l[pn][g] + u[pn][g] for g in range(NG))
+                ctx.check_close("%s x (volume of both halves) = total of the combined %s" % (sc, pn),
+                                b.p[sc] * volHalves[n], want, scale=want)
+            else:
+                ctx.check_close("%s stays as assigned (%s not merged)" % (sc, pn), b.p[sc], l[sc], scale=l[sc])
     for c, (pw, kg) in untouched.items():
         ctx.check_close("assembly %s off the line keeps its power" % (c,), byCell[c][0].p.power, pw, scale=pw + 1e-30)
         ctx.check_close("assembly %s off the line keeps its kgHM" % (c,), byCell[c][0].p.kgHM, kg, scale=kg + 1e-30)
